@@ -11,7 +11,8 @@ import (
 // shared generator pieces
 
 var namePool = []string{"t/a", "t/b", "x/y/z", "dev/1/temp", "n/1", "n/2", "n/3", "n/4", "long/topic/name/with/levels", "q"}
-var shortPool = []string{"ab", "cd", "zz", "a/"}
+// 2-octet names: ASCII, and one-character names whose UTF-8 form is two octets (é, µ)
+var shortPool = []string{"ab", "cd", "zz", "a/", "\u00e9", "\u00b5"}
 var wildPool = []string{"t/#", "#", "+/a", "x/+/z", "n/+", "dev/+/temp"}
 
 // SchedFor picks a scheduling mode swarm-style: none / sparse / focus / dense.
@@ -178,7 +179,7 @@ func (sg *sessGen) topicRef() (tit uint8, tid uint16) {
 	case 4, 5:
 		return refsn.TITPredefined, uint16(g.Range(1, 8))
 	case 6, 7:
-		return refsn.TITShort, refsn.ShortID(shortPool[g.Intn(len(shortPool))])
+		return refsn.TITShort, g.shortID()
 	case 8:
 		return refsn.TITNormal, []uint16{0, 0xFFFF, 0xFFFE, 500}[g.Intn(4)]
 	default:
@@ -254,7 +255,7 @@ func (sg *sessGen) activeOp(o sessOpts) {
 		case 2:
 			p.TIT, p.TopicID = refsn.TITPredefined, uint16(g.Range(1, 8))
 		case 3:
-			p.TIT, p.TopicID = refsn.TITShort, refsn.ShortID(shortPool[g.Intn(len(shortPool))])
+			p.TIT, p.TopicID = refsn.TITShort, g.shortID()
 		}
 		if weird {
 			switch g.Intn(5) {
@@ -279,7 +280,7 @@ func (sg *sessGen) activeOp(o sessOpts) {
 		case 1:
 			p.TIT, p.TopicID = refsn.TITPredefined, uint16(g.Range(1, 8))
 		case 2:
-			p.TIT, p.TopicID = refsn.TITShort, refsn.ShortID(shortPool[g.Intn(len(shortPool))])
+			p.TIT, p.TopicID = refsn.TITShort, g.shortID()
 		}
 		if weird && g.Bool(0.5) {
 			p.TIT, p.TopicName = 3, "t/a"
@@ -359,4 +360,16 @@ func visibleID(g *Gen, m map[string]map[uint16]string, cid string) uint16 {
 		return 2
 	}
 	return ids[g.Intn(len(ids))]
+}
+
+// shortID: a 2-octet topic name as an id; mostly from the pool, sometimes any two octets (some
+// are no MQTT topic name or filter: wildcards, NUL, invalid UTF-8).
+func (g *Gen) shortID() uint16 {
+	if g.Bool(0.12) {
+		if g.Bool(0.5) {
+			return refsn.ShortID([]string{"+a", "a+", "#a", "a#", "\x00a", "a\x00", "\xffa", "t\x86", "\xc3\x28"}[g.Intn(9)])
+		}
+		return uint16(g.Intn(65536))
+	}
+	return refsn.ShortID(shortPool[g.Intn(len(shortPool))])
 }
